@@ -108,6 +108,12 @@ pub fn catch<T>(f: impl FnOnce() -> T) -> Result<T, PanicRec> {
 }
 
 /// CPU time consumed by the calling thread, in nanoseconds.
+#[cfg(miri)]
+pub fn thread_cpu_ns() -> u64 {
+    0
+}
+
+#[cfg(not(miri))]
 pub fn thread_cpu_ns() -> u64 {
     let mut ts = libc::timespec {
         tv_sec: 0,
@@ -229,6 +235,10 @@ impl Death {
             "ub-check-abort".into()
         } else if t.contains("AddressSanitizer") {
             "asan".into()
+        } else if t.contains("Undefined Behavior") {
+            "miri-undefined-behavior".into()
+        } else if t.contains("unsupported operation") && t.contains("Miri") {
+            "miri-unsupported".into()
         } else if t.contains("panic in a function that cannot unwind")
             || t.contains("panicked")
         {
@@ -355,7 +365,20 @@ fn run_worker(
         Ok(f) => f,
         Err(e) => return (Frag::new(), WorkerOutcome::Broken(format!("stderr file: {}", e))),
     };
-    let mut cmd = Command::new(exe);
+    // VERIF_WORKER_CMD: run the workers through another launcher (e.g. `cargo +nightly miri
+    // run -p rtcheck --`); the worker protocol on stdout is unchanged
+    let mut cmd = match std::env::var("VERIF_WORKER_CMD") {
+        Ok(tpl) if !tpl.trim().is_empty() => {
+            let mut parts = tpl.split_whitespace();
+            let mut c = Command::new(parts.next().unwrap());
+            c.args(parts);
+            if let Ok(d) = std::env::var("VERIF_WORKER_CWD") {
+                c.current_dir(d);
+            }
+            c
+        }
+        _ => Command::new(exe),
+    };
     cmd.args(args)
         .arg("--worker")
         .arg("--shard")
